@@ -326,6 +326,29 @@ def rrender(rng, file_src):
     return ["rw", 1, rng.randint(0, 1), "none", "raw"]
 
 
+def rbad_ratio(rng):
+    """an argument `set_cell_ratio` rejects: [bad, <exception class>, <how to build the value>]"""
+    k = rng.random()
+    if k < 0.6:
+        x = rng.choice([-0.5, -1.0, -0.0, 0.0, float("-inf"), -5e-324, -rratio(rng), float("1e-400")])
+        return ["bad", "ValueError", {"f": f2h(x)}]
+    if k < 0.8:
+        return ["bad", "ValueError", {"i": rng.choice([0, -1, -2, -10 ** 30])}]
+    return ["bad", "TypeError", rng.choice([{"s": "0.5"}, {"s": "-1"}, {"none": 1}, {"l": [0.5]}])]
+
+
+def bad_ratio_value(spec):
+    if "f" in spec:
+        return h2f(spec["f"])
+    if "i" in spec:
+        return spec["i"]
+    if "s" in spec:
+        return spec["s"]
+    if "l" in spec:
+        return list(spec["l"])
+    return None
+
+
 def rhist_op(rng, d, file_src):
     k = rng.random()
     if k < 0.12:
@@ -343,7 +366,7 @@ def rhist_op(rng, d, file_src):
     if k < 0.63:
         return ["sc", rng.choice([None, [rng.randint(1, 24), rng.randint(1, 48)]])]
     if k < 0.74:
-        return ["sr", rng.choice([["v", f2h(rratio(rng))], ["v", f2h(0.0)], ["fixed"], ["dynamic"]])]
+        return ["sr", rng.choice([["v", f2h(rratio(rng))], ["v", f2h(0.0)], ["fixed"], ["dynamic"], rbad_ratio(rng)])]
     if k < 0.84:
         return ["rn"]
     return rrender(rng, file_src)
@@ -370,7 +393,7 @@ def gen_hist(rng):
         if rng.random() < 0.5:
             ops.append(["rs", rterm(rng), rterm(rng)])
         for _ in range(rng.randint(1, 2)):
-            ops.append(rrender(rng, file_src))
+            ops.append(rrender(rng, file_src) if rng.random() < 0.6 else ["sr", rbad_ratio(rng)])
         for _ in range(rng.randint(1, 3)):
             ops.append(rng.choice([["rs", rterm(rng), rterm(rng)], ["sr", ["v", f2h(rratio(rng))]],
                                    ["sc", rng.choice([None, [rng.randint(1, 24), rng.randint(1, 48)]])]]))
@@ -390,14 +413,14 @@ def gen_hist(rng):
         elif o[0] == "sc":
             toks.append(f"sc {opt_cell(o[1])}")
         elif o[0] == "sr":
-            toks.append("sr " + " ".join(o[1]))
+            toks.append("sr " + " ".join(o[1][:2]))  # for `bad`: the exception class; the value is the harness's business
         elif o[0] == "rw":
             toks.append(f"rw {o[1]} {o[2]} {o[3]}")  # the entry point (o[4]) is the harness's business
         else:
             toks.append(" ".join(str(x) for x in o))
     line = f"hist {d['fam']} {env_line(d)} {d['ow']} {d['oh']} {len(ops)} " + " ".join(toks)
     kinds = sorted({o[0] for o in ops})
-    fails = sorted({o[3] for o in ops if o[0] == "rw"})
+    fails = sorted({o[3] for o in ops if o[0] == "rw"} | {"badratio" for o in ops if o[0] == "sr" and o[1][0] == "bad"})
     label = f"hist-{d['fam']}-{d['src']}-{shape}" + ("-" + "+".join(fails) if fails else "")
     return Case(line, d, label, bool({"rn", "rs", "rw"} & set(kinds)))
 
@@ -893,7 +916,7 @@ def _run_history(d, img, path, watch):
     apply_env(d)
     term_image.AutoCellRatio.is_supported = None
     out = []
-    for o in d["ops"]:
+    for o in ([["init"]] if watch is not None else []) + d["ops"]:
         obs = "done"
         try:
             if o[0] == "ss":
@@ -913,7 +936,7 @@ def _run_history(d, img, path, watch):
             elif o[0] == "sr":
                 a = o[1]
                 term_image.set_cell_ratio(
-                    h2f(a[1]) if a[0] == "v" else
+                    h2f(a[1]) if a[0] == "v" else bad_ratio_value(a[2]) if a[0] == "bad" else
                     term_image.AutoCellRatio.FIXED if a[0] == "fixed" else term_image.AutoCellRatio.DYNAMIC)
             elif o[0] == "rn":
                 seen = img._renderer(lambda im: img._size)
@@ -926,8 +949,13 @@ def _run_history(d, img, path, watch):
         if watch is not None:
             # what a fresh computation gives for a dynamic size under the environment as it is right now
             fresh = fmt_pair(lambda: img._valid_size(img.size, None)) if isinstance(img.size, Size) else None
-            watch.append((o, item + (fresh,), img))
-        out.append(f"{obs} | {fmt_stored(img.size)} | {item[2]}")
+            try:
+                cr = f2h(float(term_image.get_cell_ratio()))
+            except Exception as e:
+                cr = exc_name(e)
+            watch.append((o, item + (fresh, cr), img))
+        if o[0] != "init":
+            out.append(f"{obs} | {fmt_stored(img.size)} | {item[2]}")
     return out
 
 
@@ -939,7 +967,21 @@ def check_history(d):
     # replay the environment on the side to evaluate what a dynamic size must be
     held = Size.FIT
     key = f"hist/{d['fam']}/{d['ow']}x{d['oh']}/" + ";".join(" ".join(str(x) for x in o) for o in d["ops"])[:300]
-    for i, (o, (obs, size, rendered, fresh), img) in enumerate(watch):
+    prev_rendered = prev_cr = None
+    for i, (o, (obs, size, rendered, fresh, cr), img) in enumerate(watch, start=-1):  # -1 = the state before op 0
+        if rendered.startswith("ok "):
+            rw_, rh_ = (int(x) for x in rendered.split(" ")[1:])
+            if rw_ < 1 or rh_ < 1:
+                return Failure(f"pos/{key}", f"op {i} ({' '.join(str(x) for x in o[:2])}): rendered_size is ({rw_}, {rh_}), "
+                               "not a pair of positive integers")
+        if o[0] == "sr" and obs.startswith("err") and prev_cr is not None:
+            if cr != prev_cr:
+                return Failure(f"rejected-ratio/{key}", f"op {i}: set_cell_ratio({o[1]}) raised {obs[4:]} but the cell ratio "
+                               f"changed from {h2f(prev_cr) if len(prev_cr) == 16 else prev_cr} to {h2f(cr) if len(cr) == 16 else cr}")
+            if rendered != prev_rendered:
+                return Failure(f"rejected-ratio/{key}", f"op {i}: set_cell_ratio({o[1]}) raised {obs[4:]} but rendered_size "
+                               f"changed from {prev_rendered} to {rendered}")
+        prev_rendered, prev_cr = rendered, cr
         is_set = o[0] in ("ss", "sd", "st", "sw", "sh")
         if is_set and not obs.startswith("err"):
             if o[0] == "sd":
